@@ -17,6 +17,7 @@ def main(tier, seed):
     from hv import fam_seq, fam_ops
     items += fam_seq.bool_structure(seed, tier)[::5 if quick else 4]      # every branch lowering re-checks its inverse condition
     items += [it for it in fam_ops.ops_family(seed, tier, [2]) if it.meta['family'].startswith(('op:cmp_int', 'op:log_', 'op:not'))][::4 if quick else 1]
+    items += [it for it in fam_ops.write_family(seed, 'quick', [2]) if it.meta['family'] in ('write_empty_arrays', 'write_string', 'write_byte_array')][::1 if not quick else 3]     # library loops with zero iterations
     items += fam_tt.random_tt(seed + 3, 30 if quick else 300)
     core = fam_tt.core_family(seed + 1, tier)
     import random
